@@ -292,9 +292,6 @@ func (c *Cluster) processReady(n *Node, crashAt int) {
 		return
 	}
 	c.Mon.onReady(n, &rd)
-	if c.Spec != nil && !c.O.Async {
-		c.Spec.onWrite(n)
-	}
 	if c.O.Async {
 		for _, m := range rd.Messages {
 			switch m.GetTo() {
@@ -315,8 +312,12 @@ func (c *Cluster) processReady(n *Node, crashAt int) {
 		c.crash(n)
 		return
 	}
-	// persist (one atomic batch: snapshot, entries, hard state)
-	c.persist(n, rd.Snapshot, rd.Entries, rd.HardState)
+	if c.Spec != nil {
+		c.Spec.onWrite(n)
+	}
+	// persist (one atomic batch: snapshot, entries, hard state); the write is synced to disk only if the Ready
+	// says MustSync, otherwise it may be lost by a crash (see crash)
+	c.persist(n, rd.Snapshot, rd.Entries, rd.HardState, rd.MustSync || !raft.IsEmptySnap(rd.Snapshot)) // a snapshot is always saved durably
 	if crashAt == 2 {
 		c.crash(n)
 		return
@@ -338,7 +339,15 @@ func (c *Cluster) processReady(n *Node, crashAt int) {
 	}
 }
 
-func (c *Cluster) persist(n *Node, snap *pb.Snapshot, ents []*pb.Entry, hs *pb.HardState) {
+func (c *Cluster) persist(n *Node, snap *pb.Snapshot, ents []*pb.Entry, hs *pb.HardState, mustSync bool) {
+	if !mustSync {
+		if n.SyncedHS == nil {
+			prev, _, _ := n.St.InitialState()
+			n.SyncedHS = proto.Clone(prev).(*pb.HardState)
+			n.SyncedLast, _ = n.St.LastIndex()
+		}
+		c.Stats["ready_unsynced"]++
+	}
 	if !raft.IsEmptySnap(snap) {
 		if err := n.StApplySnapshot(snap); err != nil {
 			c.Stats["applysnap_err"]++
@@ -349,10 +358,19 @@ func (c *Cluster) persist(n *Node, snap *pb.Snapshot, ents []*pb.Entry, hs *pb.H
 		n.StSetHardState(hs)
 	}
 	c.Mon.onPersist(n)
+	if mustSync {
+		n.SyncedHS = nil
+	}
+	// The abstract protocol has no notion of an unsynced write (its promises are durable as a whole version):
+	// in runs replayed through it every write counts as persisted and a crash loses nothing (see crash);
+	// the monitors still judge promises against DurableHS.
 	if c.Spec != nil {
 		c.Spec.onPersist(n)
 	}
 }
+
+// fsync makes every outstanding unsynced write of n durable.
+func (c *Cluster) fsync(n *Node) { n.SyncedHS = nil }
 
 // appRestore installs a snapshot into the application state machine.
 func (c *Cluster) appRestore(n *Node, snap *pb.Snapshot) {
@@ -438,6 +456,7 @@ func (c *Cluster) appSnapshotHousekeeping(n *Node) {
 	if i < last.Index {
 		return
 	}
+	c.fsync(n) // saving a snapshot syncs the log
 	n.StCreateSnapshot(i, n.confAtIndex(i), []byte(fmt.Sprintf("s%d", i)))
 }
 
@@ -452,7 +471,7 @@ func (c *Cluster) appendThread(n *Node) {
 	if m.Term != nil || m.Vote != nil || m.Commit != nil {
 		hs = &pb.HardState{Term: new(m.GetTerm()), Vote: new(m.GetVote()), Commit: new(m.GetCommit())}
 	}
-	c.persist(n, m.GetSnapshot(), m.GetEntries(), hs)
+	c.persist(n, m.GetSnapshot(), m.GetEntries(), hs, true)
 	if !raft.IsEmptySnap(m.GetSnapshot()) {
 		c.appRestore(n, m.GetSnapshot())
 	}
@@ -495,6 +514,15 @@ func (c *Cluster) crash(n *Node) {
 	if !n.Alive {
 		return
 	}
+	// unsynced writes (Readys with MustSync=false) reach the disk or not
+	var lost *pb.HardState
+	if n.SyncedHS != nil {
+		if c.Spec == nil && c.Rng.Intn(2) == 0 {
+			lost = n.SyncedHS
+			c.Stats["crash_lost_unsynced"]++
+		}
+		n.SyncedHS = nil
+	}
 	c.trace("crash %d", n.ID)
 	c.Stats["crash"]++
 	c.Mon.onCrash(n)
@@ -502,6 +530,9 @@ func (c *Cluster) crash(n *Node) {
 		c.Spec.onCrash(n)
 	}
 	n.Crash()
+	if lost != nil {
+		n.StSetHardState(lost)
+	}
 }
 
 // restart brings a crashed node back from its storage. The application recovers its state machine
@@ -570,6 +601,7 @@ func (c *Cluster) compact(n *Node) {
 	}
 	i := lo + 1 + uint64(c.Rng.Int63n(int64(hi-lo)))
 	c.trace("compact %d at %d", n.ID, i)
+	c.fsync(n) // saving a snapshot syncs the log
 	if err := n.StCreateSnapshot(i, n.confAtIndex(i), []byte(fmt.Sprintf("s%d", i))); err != nil {
 		return
 	}
